@@ -19,8 +19,8 @@ Fixpoint opt_list {A} (l : list (option A)) : option (list A) :=
   | Some x :: r => option_map (cons x) (opt_list r)
   | None :: _ => None
   end.
-Definition ips_of_tok (s : string) : option (list ip) := opt_list (map ip_of_tok (split "+"%char s)).
-Definition macs_of_tok (s : string) : option (list mac) := opt_list (map mac_of_tok (split "+"%char s)).
+Definition ips_of_tok (s : string) : option (list ip) := opt_list (map ip_of_tok (Text.split "+"%char s)).
+Definition macs_of_tok (s : string) : option (list mac) := opt_list (map mac_of_tok (Text.split "+"%char s)).
 
 (* IPAddrs distinguishes "no MAC entry" (nil) from "entry without hosts" (empty): the property text does not
    constrain MAC-only entries (Capture / SetDHCPv4IPOffer), so this field is compared with the model only and
@@ -67,7 +67,8 @@ Definition dispatch (kind : string) (args : list string) : string :=
     match args with
     | ctok :: t0 :: itok :: mtok :: optoks =>
         match cfg_of_tok ctok, Z_of_dec t0, ips_of_tok itok, macs_of_tok mtok, ops_of_toks optoks with
-        | Some c, Some t0, Some ips, Some ms, Some ops =>
+        | Some c, Some t0, Some ips, Some ms, Some ops0 =>
+            let ops := map (debyte c) ops0 in
             let ips := sort_by ip_leb ips in
             match new_session c t0 with
             | Ok s0 =>
